@@ -1,8 +1,72 @@
-(* C11 — MultiJagged yields a balanced jagged hierarchy with the requested part count. *)
+(* C11 — MultiJagged yields a balanced jagged hierarchy with the requested part count.
+   This file contains only the property theorems, each closed by [exact] of a
+   lemma of Proofs/MultiJaggedProofs.v, with [Print Assumptions] beneath.
+
+   Quantification: every theorem holds for EVERY arithmetic [A] (IEEE binary64
+   [F64], exact rationals [QA], ...) unless it names one, every dimension D,
+   every root oracle satisfying [root_ok] (libm powf is not modelled), every
+   sort oracle satisfying [sorter_ok] (any permutation sorted by the
+   coordinate; ties free), every block decomposition [blk] of rayon's scan and
+   every order [ord] in which the leaves draw their number from the atomic
+   counter (any injection of the leaves into [0, part_count)). *)
+From Coq Require Import Permutation QArith.
 From Coupe Require Import Lib.Prelude Lib.SFloat Model.MultiJagged Proofs.MultiJaggedProofs Gen.MjGen.
 Open Scope N_scope.
 
+(* the literals of multi_jagged.rs the model is written against, re-read from the source on every run *)
+Theorem C11_source_literals :
+  mj_counter_first = 0 /\ mj_counter_incr = 1 /\ mj_leaf_num_splits = 0 /\ mj_axis_step = 1%nat /\
+  mj_num_splits_offset = 1 /\ mj_scheme_stops_on_rem0_iter0 = true /\
+  mj_scan_test_is_gt = true /\ mj_skip_test_is_gt = true /\ mj_refine_test_is_lt = true /\
+  mj_refine_uses_default_ulps = true /\ mj_refine_bounded_by_len = true.
+Proof. repeat split; exact eq_refl. Qed.
+
+(* mj_leaf_count: the scheme built for (part_count, max_iter) has exactly
+   part_count leaves (and is well formed: every cutting node has
+   num_splits + 1 children whose part counts add up, modifier i = parts of
+   child i / parts) *)
+Theorem C11_leaf_count : forall (A : arith) (root : N -> nat -> N) (k : N) (m : nat),
+  root_ok root -> 1 <= k -> k < 2 ^ 60 -> (1 <= m)%nat ->
+  exists sch, partition_scheme A root k m = Ok sch /\ leaves sch = N.to_nat k /\ WfScheme A sch k m.
+Proof. exact mj_leaf_count. Qed.
+Print Assumptions C11_leaf_count.
+
+(* [root_ok] cannot be weakened to 1 <= root <= n: a root of 1 for 5 parts turns the node into a leaf *)
+Example C11_leaf_count_needs_root_ge_2 :
+  let root := fun (n : N) (m : nat) => if Nat.eqb m 1 then n else 1 in
+  (forall n m, 1 <= n -> 1 <= root n m <= n) /\
+  exists sch, partition_scheme QA root 5 2 = Ok sch /\ leaves sch = 1%nat.
+Proof.
+  split.
+  - intros n m Hn. cbv beta zeta. destruct (Nat.eqb m 1); lia.
+  - eexists. split; [vm_compute; reflexivity|reflexivity].
+Qed.
+
+(* ids below part_count, every element written, and the parts form a jagged
+   hierarchy of the shape of the scheme (mj_jagged), whenever the model returns *)
+Theorem C11_ids_in_range_and_jagged :
+  forall (A : arith) (D npts : nat) (wts : list (num A)) sorter blk cxlt root ord (k : N) (m : nat) p0 p,
+  root_ok root -> sorter_ok sorter cxlt -> ord_ok ord (N.to_nat k) ->
+  1 <= k -> k < 2 ^ 60 -> (1 <= m)%nat -> length p0 = npts ->
+  multi_jagged A D npts wts sorter blk root ord k m p0 = Ok p ->
+  length p = npts /\ Forall (fun x => x < k) p /\
+  exists sch els, partition_scheme A root k m = Ok sch /\ leaves sch = N.to_nat k /\
+    Permutation els (seq 0 npts) /\ JaggedTree (num A) D cxlt (fun i => nth i p 0) sch 0 els.
+Proof. exact mj_structure. Qed.
+Print Assumptions C11_ids_in_range_and_jagged.
+
+(* ---- checkers used on the implementation's outputs ---- *)
 Theorem C11_check_range_ok : forall k n p,
   check_range k n p = true <-> (length p = n /\ Forall (fun x => x < k) p).
 Proof. exact check_range_ok. Qed.
 Print Assumptions C11_check_range_ok.
+
+Theorem C11_check_balance_ok : forall ws p k m, check_balance ws p k m = true <-> balanced ws p k m.
+Proof. exact check_balance_ok. Qed.
+Print Assumptions C11_check_balance_ok.
+
+Theorem C11_check_jagged_sound : forall B D cxlt idf (sch : scheme B) n lvs,
+  check_jagged B D cxlt idf sch n lvs = true ->
+  exists els, Permutation els (seq 0 n) /\ JaggedTree B D cxlt idf sch 0 els.
+Proof. exact check_jagged_sound. Qed.
+Print Assumptions C11_check_jagged_sound.
